@@ -19,7 +19,10 @@ THEOREMS = ["C07.c07_prim", "C06.c06_pump_total", "C08.c08_skip_exceeded", "C08.
             # every out-of-range value is shown, then reported, directly and exactly once (ValueWarn.lean, Props/C08V.lean)
             "Annot.append", "readPrim_vw", "decode_vw", "decodeCommand_vw", "decodeResponse_vw", "decodeStream_vw", "runWalker_vw",
             "Annot.warning_follows", "Annot.offender_warned", "C08.c08_value_tables", "C08.c08_annotated",
-            "C08.c08_value_warning_follows_its_field", "C08.c08_offending_field_is_warned"]
+            "C08.c08_value_warning_follows_its_field", "C08.c08_offending_field_is_warned",
+            # warn mode = the lenient field-by-field interpretation + the value warnings (Lenient.lean, Props/C08L.lean)
+            "Sim.bind", "readPrim_sim", "decode_sim", "decodeCommand_sim", "decodeResponse_sim", "decodeStream_sim", "runWalker_sim",
+            "C08.c08_lenient", "C08.c08_lenient_object", "C08.c08_lenient_events", "C08.c08_lenient_only_value_warnings"]
 
 
 def allowed_escape(block):
@@ -156,10 +159,12 @@ def run(ctx, replay_case):
     })
 
 
-PROP = {"targets": ["TpmProofs.Props.C08W", "TpmProofs.Props.C08N", "TpmProofs.Props.C08V"], "module": ["TpmProofs.Props.C08N", "TpmProofs.Props.C08V"],
-        "checker_modules": ["TpmProofs.Props.C08W", "TpmProofs.Props.C08N", "TpmProofs.Props.C08V"], "theorems": THEOREMS, "run": run,
+PROP = {"targets": ["TpmProofs.Props.C08W", "TpmProofs.Props.C08N", "TpmProofs.Props.C08V", "TpmProofs.Props.C08L"],
+        "module": ["TpmProofs.Props.C08N", "TpmProofs.Props.C08V", "TpmProofs.Props.C08L"],
+        "checker_modules": ["TpmProofs.Props.C08W", "TpmProofs.Props.C08N", "TpmProofs.Props.C08V", "TpmProofs.Props.C08L"], "theorems": THEOREMS, "run": run,
         "assumptions": ["no size error escapes, no internal error but the known assertion (every layout of /repo, every command code, streams, every input), "
                         "tiling and the first-problem relation are theorems about the model; the model is tied to the implementation by the warn-mode "
                         "correspondence of this check and the same statements are monitored on the implementation's own observations",
-                        "the value-only clause is proved as re-encoding (C02.c02_warn_value_only) and as the first-problem relation (C07), not as an equality "
-                        "with a separately defined lenient interpretation"]}
+                        "the value-only clause is a theorem: the lenient interpretation is strict decoding under the tables with every declared set widened "
+                        "to the field's width (MsgTables.relax); whenever it accepts, warn mode returns the same object and its trace minus the value warnings "
+                        "is the lenient trace (Lenient.lean), each value warning directly behind its field (ValueWarn.lean)"]}
